@@ -152,7 +152,8 @@ async fn reader_task(
                     let t = world.now_ms();
                     s = shared.lock().unwrap();
                     s.obs.finals.push(RespObs { resp, seq_done: seq, t_done: t });
-                    if status == 101 && plan.kind == ConnKind::Upgrade {
+                    if status == 101 {
+                        // whatever follows a 101 is no longer HTTP
                         s.obs.upgraded = true;
                         let rest = parser.take_rest();
                         s.obs.raw.extend_from_slice(&rest);
